@@ -481,10 +481,14 @@ def mon_C05(walk, d):
     out = []
     incomplete = set()     # QoS2 ids received and not yet released (reference receiver)
     unknown = False        # after a desynchronised (tainted) stretch the reference set is unknown
+    prev_end = 0
     for c in d["conns"]:
-        if c.connack is not None and not c.connack["sp"]:
-            pass
+        # a reset (client closed) between connections forgets the receive state as well
+        if any(walk.notes[j].get("kind") == "reset" for j in range(prev_end, c.open_step)):
+            incomplete = set()
+            unknown = False
         end = c.close_step if c.close_step is not None else len(walk.script)
+        prev_end = end
         owed = []              # acks owed, in arrival order: (kind, pid, step)
         for i in range(c.open_step, end):
             note = walk.notes[i]
